@@ -234,7 +234,8 @@ def spaces(tier, seed):
               ["matching_cost", "disparity", "refinement", "filter"],
               ["matching_cost", "disparity", "filter", "refinement"],
               ["matching_cost", "aggregation", "optimization", "disparity"]]
-    mixed = [{"kind": "mixed", "P": s, "Q": q} for s in hseqs for q in others if list(s) != q]
+    mixed = [{"kind": "mixed", "P": s, "Q": q} for s in hseqs + [o for o in others if o not in hseqs]
+             for q in others if list(s) != q]
     return [
         {"name": "language: all step sequences vs automaton", "level": 0, "cases": lang, "chunk": 2},
         {"name": "mixed histories: pipeline P after another pipeline Q on the same machine", "level": 2,
